@@ -347,10 +347,14 @@ class OrderDomain(NormDomain):
         lo_i = int(rlo.num.const_value() / rlo.den.const_value())
         pv = {}
         for p, envname in parmap.items():
+            # a family parameter is a function parameter, possibly shifted ((name, +1) for the derivative sequences)
+            off_ = 0
+            if isinstance(envname, tuple):
+                envname, off_ = envname
             v = self.rat(it.lookup(envname, frame, node))
             if v is None:
                 return False
-            pv[p] = v
+            pv[p] = v + off_
         fk = self.fkey(fam, pv)
         carried = set()
         for st in node.body:
